@@ -26,6 +26,10 @@ history panics, the canvas stays well-formed), `obj_export_holds` (clause (1) af
 object shows at that moment), `obj_roundtrip_holds` (a conversion into a used object does not depend on what it held;
 clause (3)), `obj_self_roundtrip_holds`.  The placement fields `XYoffset`/`X`/`Y` of a graphics message are not parameters of
 any modelled conversion nor of `Spec.Pix.checkGfx` (records `pix.gfxo` set them; `rwp_centering` is the placement rule).
+Conversions in a row whose results the caller keeps (records `pix.seq`): no theorem of its own — every modelled conversion is
+a function of its arguments (no state between calls in `Model/Pix.lean`), so the model prints each result identically
+right after its call and after the later calls; the run compares both printings of the implementation with it and adds the
+clause `retained` (`Driver/Pix.seqSpec`: the tokens printed at the end equal the tokens printed right after the call).
 
 **Observations outside the domain** (the property quantifies over "declared sizes up to a few hundred pixels"; `HWCGfx.W/H`
 are `uint32` taken from the message unchecked; reproduced on the unchanged library with a state of one data byte):
